@@ -83,6 +83,9 @@ RUNS = {
         {"name": "K7-pairs-race", "mode": "k7pair", "budget": (0, 968), "nontrivial": r".", "keyfn": "k7pair", "race": True, "tiers": ["thorough"]},
         {"name": "K4-session-race", "mode": "k4", "budget": (0, 9000), "nontrivial": r"^rtyp=(?!7 )", "keyfn": "k4", "race": True, "tiers": ["thorough"]},
     ],
+    "C08": [
+        {"name": "K5-path-coherence", "mode": "k5", "budget": (5000, 120000), "nontrivial": r"^rtyp=(75|21|77|123) |^ok=1", "keyfn": "k5"},
+    ],
     "C02": [
         {"name": "K2-framing", "mode": "k2", "budget": (1500, 40000), "nontrivial": r"recv\d+=(msg|proto)", "keyfn": "k2"},
     ],
@@ -91,6 +94,30 @@ RUNS = {
 NOT_YET = {}
 
 PROPS = {
+    "C08": {
+        "level_text": "Proof + oracle: on the session model (the path tree of path_tree.go/server.go transcribed): a handler of the shape LookupFID / "
+                      "defer DecRef / body that tests the path node first refuses a fenced fid (live reference on a deleted node) with EINVAL - "
+                      "Tlopen, Tlcreate, Tmkdir/Tsymlink/Tmknod, Tunlinkat, Tsetattr, Treadlink, Txattrwalk, Txattrcreate, Treaddir - and a walk with "
+                      "names from a fenced directory with ENOENT, each without a backend call and with tape, fid table and path tree untouched "
+                      "(generic lemma + per-handler theorems); markChildDeleted (unlink, rename over an entry) detaches the name and marks the "
+                      "path node and every node reachable below it deleted (induction over the marking pass, any depth); nameFor returns the name a "
+                      "reference is registered under now. Partial: that Renamed reaches every affected File with its new parent and name, and the "
+                      "two-fid handlers (Trename, Trenameat, Tlink, Tremove) refuse fenced fids, is decided by the K5 correspondence: the session "
+                      "model's Renamed multiset and replies against the server on every request, plus an independent identity oracle.",
+        "level_note": "Trusted: Lean kernel; Session/Model.lean (hand-written, tied by K4/K5 on every request incl. the Renamed notifications); "
+                      "Spec/Coherence.lean - the oracle: directory entries between object identities learnt from creating replies, fid -> object, "
+                      "rename moves an object with its subtree, unlink/overwrite kills a subtree; judged per request from what the client sees "
+                      "(identities in Rwalk/Rgetattr/Rattach, Rread content, errno, number of backend calls) - never the server's tree or the "
+                      "backend's paths. Backend: harness/memfs.go, a path-resolving in-memory file system in the style of localfs (a File is a path, "
+                      "an opened File keeps its object, POSIX refusals); no hard links (one entry per object).",
+        "rule": "k5: histories of 60..220 requests on two connections over one server: walk 1..3 names, clone, mkdir, create, unlinkat, renameat, "
+                "rename, remove, clunk, open, read, getattr, setattr/symlink/mknod/readlink/walkgetattr, names a/b/c (mostly existing ones), fids "
+                "0..7 mostly bound, a fifth of the steps aimed at fids whose guessed path no longer resolves with one of 16 path-dependent "
+                "requests. Per request a K4 line (session model) and a k5obs line (oracle); at the end the oracle must have judged >= 5 fenced "
+                "requests, >= 50 identities and followed >= 5 renames. Non-trivial: successful rename/unlink/remove, judged observations.",
+        "assumptions": ["I4: path-dependent = what the server fences; I7: a fenced non-directory refuses walks with EINVAL", "POSIX backend"],
+        "trusted_base": ["Session/Model.lean", "Spec/Coherence.lean (oracle)", "harness/memfs.go", "Driver/K5.lean"],
+    },
     "C06": {
         "level_text": "Proof: one server connection is a labelled transition system (Conc/ConnProto.lean: StartTag / WaitTag / wake / backend enter+leave / "
                       "handler return+ClearTag / reply write, per request record, any tags incl. duplicates and re-use); for every label sequence an "
@@ -498,7 +525,17 @@ def key_k7scen(m):
     return "k7scen:%s" % (n.group(1) if n else "?")
 
 
-KEYFNS = {"k7pair": key_k7pair, "k7scen": key_k7scen, "k1": key_k1, "k2": key_k2, "k4": key_k4, "kcs": key_kcs}
+def key_k5(m):
+    if m["lhs"].startswith("k5obs"):
+        t = re.search(r"typ=(\d+)", m["lhs"])
+        why = [x for x in m["model_only"] if x.startswith("why=")]
+        return "k5obs:typ%s:%s" % (t.group(1) if t else "?", re.sub(r"\d+", "N", why[0][4:]) if why else "?")
+    if m["lhs"].startswith("k5stats"):
+        return "k5stats:monitor-vacuous"
+    return key_k4(m)
+
+
+KEYFNS = {"k5": key_k5, "k7pair": key_k7pair, "k7scen": key_k7scen, "k1": key_k1, "k2": key_k2, "k4": key_k4, "kcs": key_kcs}
 
 
 def monitor_lifecycle(lines):
